@@ -37,12 +37,13 @@ type image struct {
 
 type crashEngine struct {
 	seqEngine
-	capturing bool
-	raw       []image // images captured during the current op (untorn)
-	queue     []image // images (with torn variants) waiting to be recovered
-	keys      []string
-	openArgs  [][2]string
-	tier      string
+	capturing       bool
+	raw             []image // images captured during the current op (untorn)
+	queue           []image // images (with torn variants) waiting to be recovered
+	keys            []string
+	openArgs        [][2]string
+	pendingOpenArgs [][2]string
+	tier            string
 }
 
 func newCrashEngine() *crashEngine {
@@ -235,17 +236,26 @@ func (e *crashEngine) Exec(op *Op) string {
 		e.queue = nil
 		return e.recover(img)
 	case "open":
-		e.openArgs = op.Args
+		e.pendingOpenArgs = op.Args
 	}
 	withFS := op.Name == "flush" || op.Name == "close" || op.Name == "igc" || op.Name == "pgc" || op.Name == "iter" || (op.Name == "open" && e.dir != "")
 	if !withFS {
-		return e.seqEngine.Exec(op)
+		res := e.seqEngine.Exec(op)
+		if op.Name == "open" && strings.HasPrefix(res, "ok") {
+			e.openArgs = e.pendingOpenArgs
+		}
+		return res
 	}
 	pre := image{point: op.Name + ".begin", files: readDirFiles(e.dir)}
 	e.raw = nil
 	e.capturing = true
 	res := e.seqEngine.Exec(op)
 	e.capturing = false
+	if op.Name == "open" && strings.HasPrefix(res, "ok") {
+		// images are recovered with the configuration of the last SUCCESSFUL open (an interrupted re-bucketing
+		// is recovered with the new bit size, which is what the interrupted open asked for)
+		e.openArgs = e.pendingOpenArgs
+	}
 	post := image{point: op.Name + ".end", files: readDirFiles(e.dir)}
 	seq := append([]image{pre}, e.raw...)
 	seq = append(seq, post)
@@ -375,6 +385,7 @@ func orNone(s string) string {
 // generator: a seq workload; after every op with file-system steps, drain the crash images
 
 type crashGen struct {
+	c09     bool
 	inner   *seqGen
 	drain   bool
 	sentKey bool
@@ -395,9 +406,10 @@ func newCrashGen(r *RNG, tier string, profile string) *crashGen {
 		g.inner.maxOps = 20 + r.Intn(60)
 		g.maxFS = 1000
 	}
-	if g.inner.bits > 16 {
-		g.inner.bits = 8 + r.Intn(9) // keep the snapshot small: it is part of every image
+	if g.inner.bits > 12 {
+		g.inner.bits = 8 + r.Intn(5) // keep the snapshot small: it is part of every image
 	}
+	g.c09 = profile == "c09"
 	return g
 }
 
@@ -428,6 +440,16 @@ func (g *crashGen) Next(r *RNG, hist []Op) (Op, bool) {
 		// views are not needed here; crash images are the observable
 		if op.Name == "view" || op.Name == "disk" || op.Name == "sizes" || op.Name == "paths" || op.Name == "badsnap" {
 			continue
+		}
+		if g.c09 && op.Name == "open" {
+			for i := range op.Args {
+				if op.Args[i][0] == "bits" {
+					if b, _ := strconv.Atoi(op.Args[i][1]); b > 12 {
+						op.Args[i][1] = strconv.Itoa(8 + b%5)
+						g.inner.bits = 8 + b%5
+					}
+				}
+			}
 		}
 		if g.fsOps >= g.maxFS && (op.Name == "flush" || op.Name == "igc" || op.Name == "pgc" || op.Name == "iter") {
 			// budget of crash-explored ops used up: end the workload
